@@ -432,7 +432,20 @@ static MPI_Comm commForColours(const std::vector<long>& col) {
   return c;
 }
 
-static Dune::MPIGuard* makeGuard(const std::string& ctor, MPI_Comm comm, bool active) {
+// `defaulted`: the guard is constructed as the op-line comment says, `MPIGuard guard(comm)`, i.e. with the DEFAULT
+// argument of the constructor's `active` parameter (round four: rounds one to three passed `true` explicitly, so the
+// declared default of none of the constructors was ever exercised -- mutation M2).  Arm `n` uses the default, arm `a`
+// on a rank without guard object passes `true` explicitly, arm `m` passes `false`.
+static Dune::MPIGuard* makeGuard(const std::string& ctor, MPI_Comm comm, bool active, bool defaulted = false) {
+  if (defaulted) {
+    stat("guard_ctor_default_arg");
+    if (ctor == "def") return new Dune::MPIGuard();
+    if (ctor == "helper") return new Dune::MPIGuard(Dune::MPIHelper::instance());
+    if (ctor == "mpicomm") return new Dune::MPIGuard(comm);
+    if (ctor == "cc") return new Dune::MPIGuard(Dune::Communication<MPI_Comm>(comm));
+    return new Dune::MPIGuard(Dune::Communication<Dune::No_Comm>());
+  }
+  stat(active ? "guard_ctor_explicit_true" : "guard_ctor_explicit_false");
   if (ctor == "def") return new Dune::MPIGuard(active);
   if (ctor == "helper") return new Dune::MPIGuard(Dune::MPIHelper::instance(), active);
   if (ctor == "mpicomm") return new Dune::MPIGuard(comm, active);
@@ -505,7 +518,7 @@ static Result execGuard(const std::string& ctor, const std::string& groups, cons
     stat(std::string("guard_path_") + (guard ? (armed ? "armed" : "inactive") : "none") + "_" + arm + act);
     try {
       if (!(guard && armed)) {
-        if (arm == 'n') { delete guard; guard = nullptr; guard = makeGuard(ctor, comm, true); }
+        if (arm == 'n') { delete guard; guard = nullptr; guard = makeGuard(ctor, comm, true, /*defaulted*/ true); }
         else if (arm == 'm') { delete guard; guard = nullptr; guard = makeGuard(ctor, comm, false); guard->reactivate(); }
         else { if (guard) guard->reactivate(); else guard = makeGuard(ctor, comm, true); }
       }
